@@ -301,3 +301,14 @@ class SymRowRef:
 
     def __init__(self, mat, r):
         self.mat, self.r = mat, r
+
+
+class Struct:
+    """immutable structured value with structural equality (results of uninterpreted library functions such as
+    str.format: Struct('format', (fmt, args, kwargs)))"""
+
+    def __init__(self, tag, fields):
+        self.tag, self.fields = tag, tuple(fields)
+
+    def __repr__(self):
+        return '%s%r' % (self.tag, self.fields)
